@@ -67,6 +67,10 @@ func checkC16(c *Ctx) {
 	c.Expect("C16-R2", 148*2)
 	c.Expect("C16-R3", 2)
 	c.Expect("C16-R4", 3)
+	c.Rule("C16-R5", "the conversions are exact for all 2^24 values: by bit provenance, NewHexColor/NewRGBColor place exactly the 24 colour bits and the two flags, Hex and RGB read them back from the same positions, TrueColor is the identity on RGB colours, palette colours carry index and valid flag only, the special colours answer -1 / not valid / default, FromImageColor takes the high byte of each 16-bit component")
+	c.Expect("C16-R5", 20)
+	c.Rule("C16-R6", "CSS and GetColor agree on the textual form: '#' plus six zero-padded hexadecimal digits of Hex() out; length 7, leading '#', the rest parsed base 16 (unsigned, at least 24 bits) and handed to NewHexColor unchanged in; no CSS form for invalid colours")
+	c.Expect("C16-R6", 3)
 	p := c.P("linux")
 	if p == nil || p.Tcell == nil {
 		c.Undecided("C16-R1", "package tcell", "-", "not loaded")
@@ -153,6 +157,8 @@ func checkC16(c *Ctx) {
 	c.Check(len(extra) == 0, "C16-R2", "names:no-extra", p.pos(npos), fmt.Sprintf("names that are not CSS colour keywords: %v", extra))
 	c16FindColor(c, p)
 	c16Gates(c, p)
+	c16Bits(c, p)
+	c16Text(c, p)
 }
 
 func c16FindColor(c *Ctx, p *Prog) {
@@ -461,4 +467,266 @@ func c16Gates(c *Ctx, p *Prog) {
 		c.Undecided("C16-R4", "TrueColor", "-", "not found")
 	}
 	_ = types.Typ
+}
+
+// ---- R5: the conversions are pure bit shuffling; decided for all 2^24 values by bit provenance (T12)
+
+func c16Bits(c *Ctx, p *Prog) {
+	fn := func(n string) *ssa.Function { return p.Fn("tcell:" + n) }
+	need := map[string]*ssa.Function{}
+	for _, n := range []string{"NewHexColor", "NewRGBColor", "PaletteColor", "FromImageColor", "(Color).Hex", "(Color).RGB", "(Color).TrueColor", "(Color).IsRGB", "(Color).Valid"} {
+		need[n] = fn(n)
+		if need[n] == nil {
+			c.Undecided("C16-R5", n, "-", "function not found")
+			return
+		}
+	}
+	cv := func(name string) (uint64, bool) {
+		obj := p.Tcell.Pkg.Scope().Lookup(name)
+		k, ok := obj.(*types.Const)
+		if !ok {
+			return 0, false
+		}
+		return constant.Uint64Val(k.Val())
+	}
+	valid, ok1 := cv("ColorValid")
+	isRGB, ok2 := cv("ColorIsRGB")
+	if !ok1 || !ok2 || valid == 0 || isRGB == 0 || valid&isRGB != 0 || (valid|isRGB)&0xffffff != 0 {
+		c.Undecided("C16-R5", "flags", "-", fmt.Sprintf("ColorValid=%#x ColorIsRGB=%#x are not two distinct flag bits above the 24 colour bits", valid, isRGB))
+		return
+	}
+	e := &bpEval{p: p}
+	pos := func(n string) string { return p.pos(need[n].Pos()) }
+	// the expected RGB colour built from three 8-bit symbols
+	rgbColour := func(r, g, b string) bv {
+		v := bvConst(valid|isRGB, 64, false)
+		for i := 0; i < 8; i++ {
+			v.b[16+i] = abit{k: bSym, sym: r, idx: i}
+			v.b[8+i] = abit{k: bSym, sym: g, idx: i}
+			v.b[i] = abit{k: bSym, sym: b, idx: i}
+		}
+		return v
+	}
+	hexColour := func(sym string) bv {
+		v := bvConst(valid|isRGB, 64, false)
+		for i := 0; i < 24; i++ {
+			v.b[i] = abit{k: bSym, sym: sym, idx: i}
+		}
+		return v
+	}
+	expect := func(key, at string, got []bv, okCall bool, want ...bv) {
+		if !okCall || len(got) != len(want) {
+			c.Undecided("C16-R5", key, at, "not evaluable in the bit-provenance domain (loop, or unexpected result count)")
+			return
+		}
+		good := true
+		detail := ""
+		for i := range want {
+			g := got[i]
+			if g.w != want[i].w {
+				g = g.convert(want[i].w, want[i].signed)
+			}
+			if !bvEqual(g, want[i]) {
+				good = false
+			}
+			detail += fmt.Sprintf("result %d: %s; ", i, got[i])
+			if !bvEqual(g, want[i]) {
+				detail += fmt.Sprintf("wanted %s; ", want[i])
+			}
+		}
+		c.Check(good, "C16-R5", key, at, detail)
+	}
+	v24 := bvInput("v", 32, true, 24)
+	r8, g8, b8 := bvInput("r", 32, true, 8), bvInput("g", 32, true, 8), bvInput("b", 32, true, 8)
+	// 1. NewHexColor(v) = v's 24 bits + both flags, nothing else
+	nh, ok := e.call(need["NewHexColor"], []bv{v24}, 0)
+	expect("NewHexColor(v):bits", pos("NewHexColor"), nh, ok, hexColour("v"))
+	// 2. NewRGBColor(r,g,b)
+	nr, ok := e.call(need["NewRGBColor"], []bv{r8, g8, b8}, 0)
+	expect("NewRGBColor(r,g,b):bits", pos("NewRGBColor"), nr, ok, rgbColour("r", "g", "b"))
+	// components beyond 8 bits are cut, not smeared into the neighbour
+	wide := func(s string) bv { return bvInput(s, 32, true, 32) }
+	nrw, ok := e.call(need["NewRGBColor"], []bv{wide("r"), wide("g"), wide("b")}, 0)
+	expect("NewRGBColor(any,any,any):components-masked", pos("NewRGBColor"), nrw, ok, rgbColour("r", "g", "b"))
+	// 3. Hex(NewHexColor(v)) = v ; RGB(NewRGBColor(r,g,b)) = (r,g,b)
+	hx, ok := e.call(need["(Color).Hex"], []bv{hexColour("v")}, 0)
+	expect("Hex(NewHexColor(v))=v", pos("(Color).Hex"), hx, ok, v24)
+	rgb, ok := e.call(need["(Color).RGB"], []bv{rgbColour("r", "g", "b")}, 0)
+	expect("RGB(NewRGBColor(r,g,b))=(r,g,b)", pos("(Color).RGB"), rgb, ok, r8, g8, b8)
+	// 4. TrueColor is the identity on RGB colours; IsRGB/Valid are true on them
+	tc, ok := e.call(need["(Color).TrueColor"], []bv{hexColour("v")}, 0)
+	expect("TrueColor(rgb)=rgb", pos("(Color).TrueColor"), tc, ok, hexColour("v"))
+	ir, ok := e.call(need["(Color).IsRGB"], []bv{hexColour("v")}, 0)
+	expect("IsRGB(rgb)=true", pos("(Color).IsRGB"), ir, ok, bvConst(1, 1, false))
+	va, ok := e.call(need["(Color).Valid"], []bv{hexColour("v")}, 0)
+	expect("Valid(rgb)=true", pos("(Color).Valid"), va, ok, bvConst(1, 1, false))
+	// 5. palette colours: index + valid flag, not RGB
+	idx := bvInput("i", 64, true, 8)
+	pc, ok := e.call(need["PaletteColor"], []bv{idx}, 0)
+	wantPC := bvConst(valid, 64, false)
+	for i := 0; i < 8; i++ {
+		wantPC.b[i] = abit{k: bSym, sym: "i", idx: i}
+	}
+	expect("PaletteColor(i):bits", pos("PaletteColor"), pc, ok, wantPC)
+	ip, ok := e.call(need["(Color).IsRGB"], []bv{wantPC}, 0)
+	expect("IsRGB(palette)=false", pos("(Color).IsRGB"), ip, ok, bvConst(0, 1, false))
+	// 6. the special colours (no valid flag) report -1 / not valid / default
+	for _, name := range []string{"ColorDefault", "ColorNone", "ColorReset"} {
+		k, okK := cv(name)
+		if !okK {
+			c.Undecided("C16-R5", name, "-", "constant not found")
+			continue
+		}
+		col := bvConst(k, 64, false)
+		h, ok := e.call(need["(Color).Hex"], []bv{col}, 0)
+		expect("Hex("+name+")=-1", pos("(Color).Hex"), h, ok, bvConst(0xffffffff, 32, true))
+		vv, ok := e.call(need["(Color).Valid"], []bv{col}, 0)
+		expect("Valid("+name+")=false", pos("(Color).Valid"), vv, ok, bvConst(0, 1, false))
+		def, _ := cv("ColorDefault")
+		t, ok := e.call(need["(Color).TrueColor"], []bv{col}, 0)
+		expect("TrueColor("+name+")=ColorDefault", pos("(Color).TrueColor"), t, ok, bvConst(def, 64, false))
+		rr, ok := e.call(need["(Color).RGB"], []bv{col}, 0)
+		m1 := bvConst(0xffffffff, 32, true)
+		expect("RGB("+name+")=(-1,-1,-1)", pos("(Color).RGB"), rr, ok, m1, m1, m1)
+	}
+	// 7. FromImageColor: each component is bits 8..15 of the corresponding RGBA() result
+	fi, ok := e.call(need["FromImageColor"], []bv{bvTop(64, false)}, 0)
+	if ok && len(fi) == 1 {
+		good := true
+		syms := map[int]string{}
+		for comp := 0; comp < 3; comp++ {
+			base := 16 - 8*comp
+			for i := 0; i < 8; i++ {
+				b := fi[0].b[base+i]
+				if b.k != bSym || b.idx != 8+i || !strings.HasSuffix(b.sym, fmt.Sprintf(".r%d", comp)) {
+					good = false
+				}
+				syms[comp] = b.sym
+			}
+		}
+		for i := 24; i < 64; i++ {
+			want := abit{k: bZero}
+			if (valid|isRGB)>>uint(i)&1 == 1 {
+				want = abit{k: bOne}
+			}
+			if fi[0].b[i] != want {
+				good = false
+			}
+		}
+		c.Check(good, "C16-R5", "FromImageColor:components", pos("FromImageColor"), "result: "+fi[0].String()+" (wanted bits 8..15 of RGBA() results 0,1,2 in bits 16..23, 8..15, 0..7 and the two flags)")
+	} else {
+		c.Undecided("C16-R5", "FromImageColor:components", pos("FromImageColor"), "not evaluable")
+	}
+}
+
+// ---- R6: the textual form.  CSS writes '#' and exactly six hexadecimal digits of Hex(); GetColor reads
+// exactly that form back (length 7, leading '#', the six characters after it parsed base 16 into at
+// least 24 bits and handed to NewHexColor unchanged).
+func c16Text(c *Ctx, p *Prog) {
+	css := p.Fn("tcell:(Color).CSS")
+	gc := p.Fn("tcell:GetColor")
+	if css == nil || gc == nil {
+		c.Undecided("C16-R6", "CSS/GetColor", "-", "not found")
+		return
+	}
+	okFmt, detail := false, "no Sprintf with a constant format"
+	for _, in := range callsNamed(css, "fmt.Sprintf") {
+		cc := callCommon(in)
+		f, isC := constString(cc.Args[0])
+		if !isC {
+			continue
+		}
+		n, vals, okV := varargCount(cc.Args[1])
+		argIsHex := false
+		if okV && n == 1 {
+			v := vals[0]
+			if mi, isMI := v.(*ssa.MakeInterface); isMI {
+				v = mi.X
+			}
+			if call, isCall := v.(*ssa.Call); isCall && strings.HasSuffix(calleeName(&call.Call), ".Color).Hex") && len(call.Call.Args) == 1 && call.Call.Args[0] == ssa.Value(css.Params[0]) {
+				argIsHex = true
+			}
+		}
+		okFmt = (f == "#%06X" || f == "#%06x") && argIsHex
+		detail = fmt.Sprintf("format %q, argument is the receiver's Hex(): %v", f, argIsHex)
+	}
+	c.Check(okFmt, "C16-R6", "CSS:format", p.pos(css.Pos()), "'#' and six zero-padded hexadecimal digits of Hex(): "+detail)
+	// an invalid colour has no CSS form
+	okGate := false
+	for _, r := range returnsOf(css) {
+		if s, isC := constString(r.Results[0]); isC && s == "" {
+			for _, g := range rawGuardsAt(r.Block()) {
+				if call, isCall := g.Cond.(*ssa.Call); isCall && strings.HasSuffix(calleeName(&call.Call), ".Color).Valid") && !g.Positive {
+					okGate = true
+				}
+			}
+		}
+	}
+	c.Check(okGate, "C16-R6", "CSS:invalid→empty", p.pos(css.Pos()), "returns \"\" on the !Valid() edge")
+	// GetColor
+	okParse, pd := false, "no ParseUint"
+	for _, in := range callsNamed(gc, "strconv.ParseUint") {
+		cc := callCommon(in)
+		sl, isSl := cc.Args[0].(*ssa.Slice)
+		base, okB := constInt(cc.Args[1])
+		bits, okS := constInt(cc.Args[2])
+		lowOne := false
+		if isSl && sl.X == ssa.Value(gc.Params[0]) && sl.High == nil {
+			if k, isK := constInt(sl.Low); isK && k == 1 {
+				lowOne = true
+			}
+		}
+		okParse = lowOne && okB && base == 16 && okS && (bits == 0 || bits >= 24)
+		pd = fmt.Sprintf("ParseUint(name[1:]: %v, base %d, bitSize %d)", lowOne, base, bits)
+		// the parsed value reaches NewHexColor through conversions only
+		reach := false
+		for _, r := range *in.(ssa.Value).Referrers() {
+			ex, isEx := r.(*ssa.Extract)
+			if !isEx || ex.Index != 0 {
+				continue
+			}
+			for _, u := range *ex.Referrers() {
+				v, isV := u.(ssa.Value)
+				for isV {
+					next := false
+					for _, u2 := range *v.Referrers() {
+						if call, isCall := u2.(*ssa.Call); isCall && strings.HasSuffix(calleeName(&call.Call), "NewHexColor") {
+							reach = true
+						}
+						if cv, isCv := u2.(*ssa.Convert); isCv {
+							v, next = cv, true
+						}
+					}
+					if _, isCv := v.(*ssa.Convert); !isCv || !next {
+						break
+					}
+					if reach {
+						break
+					}
+				}
+				if call, isCall := u.(*ssa.Call); isCall && strings.HasSuffix(calleeName(&call.Call), "NewHexColor") {
+					reach = true
+				}
+			}
+		}
+		if !reach {
+			okParse = false
+			pd += "; the parsed value does not reach NewHexColor through conversions only"
+		}
+		// guards: len(name) == 7 and name[0] == '#'
+		hasLen, hasHash := false, false
+		for _, g := range guardsAt(in.Block()) {
+			if g.L == "len(name)" && g.Op == "==" && g.R == "7" {
+				hasLen = true
+			}
+			if strings.HasPrefix(g.L, "name[0]") && g.Op == "==" && (g.R == "35" || g.R == "'#'") {
+				hasHash = true
+			}
+		}
+		if !hasLen || !hasHash {
+			okParse = false
+			pd += fmt.Sprintf("; guards len(name)==7: %v, name[0]=='#': %v", hasLen, hasHash)
+		}
+	}
+	c.Check(okParse, "C16-R6", "GetColor:reads-CSS-form", p.pos(gc.Pos()), pd)
 }
